@@ -422,3 +422,45 @@ def definition_contracts():
         ensures=['result.name == FDNAME', 'FD.name == FDNAME'],
         serves=('C12', 'C05'), native=False))
     return cs
+
+
+# ============ the delegate built by get_delegate, invoked (C04 scoping) =====
+
+def invoked_delegate_contracts():
+    """get_delegate(...)() as one unit: EVERY invocation allocates exactly
+    one fresh child of the caller's context - whatever the parameters are
+    called - and every converter (hence every Context / lambda parameter)
+    is handed that child; the payload gets the converted values in order."""
+    cs = []
+    CC = '[e for e in calls if e[0] == "m.create_child_context"]'
+    CV = '[e for e in calls if e[0] == "m.convert"]'
+    for sname, args, kwkeys, nconv in (('ab', (V, V), (), 2),
+                                       ('ab', (V,), ('b',), 2),
+                                       ('hab', (V, V), (), 3),
+                                       ('ak**', (V,), ('k',), 2)):
+        sig = SIGNATURES[sname]
+        tag = '%s(%s|%s)' % (sname, ','.join(args), ','.join(kwkeys))
+        cs.append(Contract(
+            M + 'FunctionDefinition.get_delegate',
+            name='specs.get_delegate+call/' + tag,
+            params=dict(self=fd_factory(sig), receiver=NV, engine=TVal,
+                        context=TVal, args=call_args(args),
+                        kwargs=call_kwargs(kwkeys)),
+            invoke_result=True,
+            raises={'ArgumentException': 'True'},
+            ensures=[
+                'len(%s) == 1' % CC,
+                'all([e[1][0] == context for e in %s])' % CC,
+                # the child is made before any converter runs ...
+                'calls[0][0] == "m.create_child_context"',
+                # ... and every converter gets the child, never the
+                # caller's context
+                'len(%s) == %d' % (CV, nconv),
+                'all([e[1][3] == calls[0][2] and e[1][2] == val(receiver) '
+                'and e[1][5] == engine for e in %s])' % CV,
+                # the payload is applied once, last, to the converted values
+                'calls[-1][0].startswith("call") and calls[-1][1][0] == '
+                'self.payload and result == calls[-1][2]',
+                'len(calls) == %d' % (nconv + 2)],
+            serves=('C04', 'C09'), native=False))
+    return cs
